@@ -96,11 +96,25 @@ CHECKS: Dict[str, Any] = {
          "(the statement does not say what they should produce)",
          "the blockMeshDict reader is correct; comparison is semantic (positions to 7 decimals, numbers to 9 significant digits, patches without faces ignored)"],
         ["faults"]),
+    "C13": EngineCheck("C13", "optimizer_check", "exploration",
+        "one evaluation = one simulated optimize() of a jittered box assembly or mapped sketch with a random subset of clamps (free, line with "
+        "bounds, curve on line/circle/interpolated curve, radial, plane, parametric surface) created on their manifolds, 0-2 links, one of the "
+        "four methods, 1-3 iterations, under a per-call solver fault plan (real / stall / wander / wander-after-real / degenerate-cell abort), "
+        "seeded or biased np.random, a clock plan and scheduler-owned order of Junction.cells. distinct_nontrivial counts distinct (scenario "
+        "digest, event-log digest) among runs that executed at least one optimize_clamp step.",
+        ["quality is measured with the library's own grid.quality (the measure itself is C14, not claimed)",
+         "manifold / bounds / link relations are recomputed with the harness's own formulas (tolerance 2e-7 for manifolds, 1e-7 for links)",
+         "clamped vertices are first moved onto the clamp's snapped position, so 'on its constraint' and 'no worse than before' are not in tension",
+         "injected solver behaviours are legal for an external minimiser: it may stop anywhere inside the bounds, and its last evaluation need not be its best"],
+        [], per_task_s=240, chunk=2,
+        components={"real": COMPONENTS["real"] + ["scipy.optimize.minimize for 'real' and 'wander_after_real' calls and in clamp construction"],
+                    "stub": COMPONENTS["stub"] + ["scipy.optimize.minimize inside optimize.optimizer for stall/wander/degenerate calls (SimMinimizer)",
+                                                    "time.time in optimize.optimizer (SimClock)", "np.random (seeded per run; biased proxy in clamps.surface)"]}),
 }
 
 
-ENGINES = ["propagation", "vertices", "lifecycle"]
-SELFTEST_SEEDS = {"propagation": 40, "vertices": 100, "lifecycle": 100}
+ENGINES = ["propagation", "vertices", "lifecycle", "optimizer"]
+SELFTEST_SEEDS = {"propagation": 40, "vertices": 100, "lifecycle": 100, "optimizer": 16}
 
 
 def engine_module(name: str):
